@@ -35,8 +35,8 @@ LEAN_MODULES = ['Yaql.Props.C08', 'Yaql.Props.C08Gen']
 REQUIRED_THEOREMS = ['Yaql.Props.C08.' + n for n in (
     'limit_pulls', 'limit_prefix', 'limit_endless_raises', 'unlimited_never_raises', 'limit_sized',
     'finalize_bounded', 'finalize_refuses', 'repeat_estimate_safe', 'repeat_nonpositive', 'repeat_estimate_safe_str',
-    'memorize_bounded', 'quota_flow', 'quota_result')] + ['Yaql.Props.C08Gen.' + n for n in (
-        'consumers_limited_partial', 'producers_limited', 'table_nonvacuous', 'sizes_ok', 'repeat_estimate_safe_now',
+    'memorize_bounded', 'quota_flow', 'quota_result', 'frozen_dict_measured', 'dict_set_checked')] + ['Yaql.Props.C08Gen.' + n for n in (
+        'consumers_limited', 'producers_limited', 'frozen_dict_unmeasured_old', 'table_nonvacuous', 'sizes_ok', 'repeat_estimate_safe_now',
         'repeat_estimate_safe_str_now', 'repeat_estimate_unsafe_old')]
 TRUSTED = ['harness/gens/limitfacts.py: classification of parameter types (live `check` with a generator object) and '
            'of syntactic uses (AST walk, helper calls followed two levels); cross-checked by the dynamic sweep',
@@ -127,9 +127,11 @@ class WorkerState:
         return self.engines[key]
 
     # ---- argument synthesis
-    def synth(self, vt, lam, log, engine):
+    def synth(self, vt, lam, log, engine, pname=None):
         yt = self.yaqltypes
         if isinstance(vt, yt.Lambda):
+            if lam.startswith('src:'):           # exactly one lambda returns an endless sequence, the others are identity
+                lam = 'src' if lam[4:] == pname else 'ident'
             if lam == 'true':
                 return lambda *a, **k: True
             if lam == 'false':
@@ -166,7 +168,7 @@ class WorkerState:
               if n not in ('*', '**') and p.position is None and not isinstance(p.value_type, yt.HiddenParameterType)]
         return [(n, p) for _, n, p in ps], kw
 
-    def build_args(self, fd, target, val, lam, log, engine):
+    def build_args(self, fd, target, val, lam, log, engine, flags=()):
         from yaql.language import specs
         pos, kw = self.visible(fd)
         args, kwargs = [], {}
@@ -177,10 +179,10 @@ class WorkerState:
         for i, (n, p) in enumerate(pos):
             if i > last_needed:
                 break
-            args.append(val if n == target else self.synth(p.value_type, lam, log, engine))
+            args.append(val if n == target else self.synth(p.value_type, lam, log, engine, n))
         if target == '*':
             for i in range(len(args), len(pos)):
-                args.append(self.synth(pos[i][1].value_type, lam, log, engine))
+                args.append(self.synth(pos[i][1].value_type, lam, log, engine, pos[i][0]))
             args.append(val)
             try:
                 args.append(self.synth(fd.parameters['*'].value_type, lam, log, engine))
@@ -190,9 +192,13 @@ class WorkerState:
             if n == target:
                 kwargs[p.alias or n] = val
             elif p.default is specs.NO_DEFAULT:
-                kwargs[p.alias or n] = self.synth(p.value_type, lam, log, engine)
+                kwargs[p.alias or n] = self.synth(p.value_type, lam, log, engine, n)
         if target == '**':
             kwargs['default'] = val
+        supplied = set(names[:len(args)])
+        for n, p in pos + kw:
+            if n in flags and n not in supplied and n != target:
+                kwargs[p.alias or n] = True          # an optional switch (default False) turned on
         assert target is None or target in names + ['*', '**'] + [n for n, _ in kw], target
         return args, kwargs
 
@@ -230,7 +236,7 @@ class WorkerState:
             else:
                 src = Src(c['elem'], log)
                 val = src if c['wrap'] == 'direct' else (src,)
-            args, kwargs = self.build_args(fd, c['target'], val, c['lam'], log, engine)
+            args, kwargs = self.build_args(fd, c['target'], val, c['lam'], log, engine, c.get('flags') or ())
         except Unsynth:
             return dict(outcome='unsynthesizable', pulls=0, maxlen=None, sources=0)
         ctx = self.root.create_child_context()
@@ -267,6 +273,8 @@ class WorkerState:
         ctx.register_function(src, name='src')
         ctx.register_function(probe, name='probe')
         data = c10.build(c['data']) if c.get('data') is not None else self.utils.NO_VALUE
+        if c.get('bigbits'):
+            data = 1 << c['bigbits']
         out = dict(maxlen=None, size=None)
         try:
             r = engine(c['expr']).evaluate(data=data, context=ctx)
@@ -414,6 +422,8 @@ def sweep_targets():
         lambdas = any(isinstance(p.value_type, yaqltypes.Lambda) for p in fd.parameters.values())
         pay = '%s.%s' % (fd.payload.__module__.replace('yaql.standard_library.', ''), fd.payload.__qualname__)
         any_target = False
+        switches = [n for n, p in fd.parameters.items() if p.default is False
+                    and not isinstance(p.value_type, yaqltypes.HiddenParameterType)]
         for n, p in fd.parameters.items():
             vt = p.value_type
             if isinstance(vt, (yaqltypes.HiddenParameterType, yaqltypes.LazyParameterType)):
@@ -427,10 +437,11 @@ def sweep_targets():
             a_iter = admits(iter(()))
             a_tup = admits((iter(()),))
             if a_iter or a_tup:
-                out.append(dict(fn=key, payload=pay, target=n, direct=a_iter, wrapped=a_tup, lambdas=lambdas))
+                out.append(dict(fn=key, payload=pay, target=n, direct=a_iter, wrapped=a_tup, lambdas=lambdas, switches=switches))
                 any_target = True
         if lambdas:
-            out.append(dict(fn=key, payload=pay, target=None, direct=False, wrapped=False, lambdas=True))
+            out.append(dict(fn=key, payload=pay, target=None, direct=False, wrapped=False, lambdas=True, switches=switches,
+                            lambda_names=[n for n, p in fd.parameters.items() if isinstance(p.value_type, yaqltypes.Lambda)]))
     return out, len(reg)
 
 
@@ -481,10 +492,12 @@ def judge_bound(res, c, out, hist, what):
 def describe_sweep(c):
     v = {'int': 'endless ints', 'etuple': 'endless empty lists', 'eiter': 'endless empty iterators',
          'esrc': 'endless endless sequences'}.get(c.get('elem'), '')
+    fl = (', %s => true' % ', '.join(c['flags'])) if c.get('flags') else ''
     if c['target'] is None:
-        return '%s with lambdas returning endless sequences' % c['fn']
-    return '%s with %s%s as parameter `%s` (lambdas: %s)' % (
-        c['fn'], v, ' inside a one-element list' if c['wrap'] == 'in_list' else '', c['target'], c['lam'])
+        return '%s with %s returning endless sequences%s' % (
+            c['fn'], 'every lambda' if c['lam'] == 'src' else 'lambda `%s`' % c['lam'][4:], fl)
+    return '%s with %s%s as parameter `%s` (lambdas: %s%s)' % (
+        c['fn'], v, ' inside a one-element list' if c['wrap'] == 'in_list' else '', c['target'], c['lam'], fl)
 
 
 EXPRS = [
@@ -698,6 +711,29 @@ def run_limit_direct(env, res, rng, hist):
 
 # ------------------------------------------------------------------ Q: memory quota
 
+def fd_chain_sizes(k, overhead):
+    """sys.getsizeof of the frozen dicts `range(k).aggregate($1.set($2, $2), {})` goes through (transcription of
+    dict_set: FrozenDict(chain(d.items(), ((key, value),))))"""
+    import itertools
+    d = {}
+    out = [overhead + sys.getsizeof(d)]
+    for i in range(k):
+        d = dict(itertools.chain(d.items(), ((i, i),)))
+        out.append(overhead + sys.getsizeof(d))
+    return out
+
+
+def fd_predict(k, Q, overhead):
+    """(refused?, final size): every dict is an argument of set() together with key and value, and a call result"""
+    S = fd_chain_sizes(k, overhead)
+    if S[0] > Q:
+        return True, S[0]
+    for i in range(k):
+        if S[i] + 2 * sys.getsizeof(i) > Q or S[i + 1] > Q:
+            return True, S[i + 1]
+    return False, S[k]
+
+
 def quota_cases(rng, tier, sizes):
     """repetition cases with quotas at the boundary of the modelled sizes, and growth chains"""
     from props import c10
@@ -737,6 +773,19 @@ def quota_cases(rng, tier, sizes):
                             expr = ('%d * $' if swap else '$ * %d') % k if k >= 0 else ('(%d) * $' if swap else '$ * (%d)') % k
                             out.append(dict(op='expr', part='Q', sub='rep', expr=expr, data=data, Q=q, raw=True, conv_in=False,
                                             kind=kind, n=n, maxcp=cp, k=k))
+    # growing frozen dicts: dict.set chains with quotas at the boundaries of the sizes the dict goes through
+    for k in (1, 5, 6, 11, 22, 50, 200):
+        sizes_k = fd_chain_sizes(k, sizes.get('fdictOverhead', 0))
+        qs = set()
+        for S in {sizes_k[0], sizes_k[len(sizes_k) // 2], sizes_k[-1]}:
+            qs |= {S - 1, S, S + 55, S + 56, S + 57}
+        qs |= {150, 400, 1300, 100000}
+        qs = sorted(q for q in qs if q >= 64)
+        if tier == 'quick':
+            qs = rng.sample(qs, min(len(qs), 8))
+        for q in qs:
+            out.append(dict(op='expr', part='Q', sub='fd', expr='range(%d).aggregate($1.set($2, $2), {})' % k, data=None, Q=q,
+                            raw=True, conv_in=True, k=k))
     chains = [
         ("range({k}).aggregate($1 + 'xxxxxxxxxx', '')", None), ("range({k}).aggregate($1 + [$2], [])", None),
         ("range({k}).aggregate($1 + {{$2 => 1}}, {{}})", None), ("range({k}).aggregate($1.set($2, $2), {{}})", None),
@@ -751,10 +800,13 @@ def quota_cases(rng, tier, sizes):
         ("probe(range({k}).toDict($, $) + range({k}).toDict($ + 1000000, $)).len()", None),
         ("probe(range({k}).toSet().union(range({k}).select($ + 1000000).toSet())).len()", None),
         ("probe(' ' * {k} + 'a').trimLeft()", None),
+        ("probe(shiftBitsLeft(1, {k} * 8)) > 0", None), ("pow(7, {k}) > 0", None), ("probe(pow(7, {k})) > 0", None),
+        ("range(1, {k}).aggregate($1 * $2, 1) > 0", None), ("range({k}).aggregate($1 * 1000000007, 1) > 0", None),
+        ("[pow(2, {k} * 8)].len()", None), ("probe($) > 0", 'bigint'), ("($ + 1) > 0", 'bigint'), ("$", 'bigint'),
         ("probe($ * {k}).len()", 'str'), ("probe($ + $ + $ + $).len()", 'big'), ("probe($).len()", 'big'),
     ]
     for tmpl, data in chains:
-        for k in (1, 10, 100, 1500, 10 ** 10 if ('* {k}' in tmpl or '{k} *' in tmpl) else (4000 if 'aggregate' not in tmpl else 2000)):
+        for k in (1, 10, 100, 1500, 10 ** 10 if (('* {k}' in tmpl or '{k} *' in tmpl) and 'shift' not in tmpl and 'pow' not in tmpl) else (4000 if 'aggregate' not in tmpl else 2000)):
             for q in (200, 1000, 10000, 150000):
                 if tier == 'quick' and rng.random() < 0.4:
                     continue
@@ -766,7 +818,10 @@ def quota_cases(rng, tier, sizes):
                     d = c10.enc_scalar('hello')
                 elif data == 'big':
                     d = c10.enc_scalar('w' * min(k, 20000))
-                out.append(dict(op='expr', part='Q', sub='chain', expr=expr, data=d, Q=q, raw=True, conv_in=True, k=k))
+                case = dict(op='expr', part='Q', sub='chain', expr=expr, data=d, Q=q, raw=True, conv_in=True, k=k)
+                if data == 'bigint':
+                    case['bigbits'] = 8 * min(k, 20000)       # $ = 1 << bigbits (too long for a decimal literal)
+                out.append(case)
     return out
 
 
@@ -795,6 +850,23 @@ def judge_quota(env, res, c, out, hist):
         if hist['known:' + KNOWN_FD] <= 3:
             res.fail('oracle', KNOWN_FD, '%s: a dict whose table has %d bytes was passed on / returned (sys.getsizeof of the '
                      'FrozenDict wrapper is all the quota sees)' % (what, out['hidden_max']), c)
+        return
+    if c['sub'] == 'fd':
+        over = env['sizes'].get('fdictOverhead', 0)
+        refused, final = fd_predict(c['k'], Q, over)
+        if env['driver'] is not None:
+            res.traces += 1
+            m = env['driver'].ask({'p': 'C08', 'cases': [{'op': 'fdict', 'ds': final - over, 'ks': 28, 'vs': 28, 'Q': str(Q)}]})['res'][0]
+            if m['size'] != final or m['pass'] != (final <= Q):
+                res.fail('mismatch', 'model-fdict', '%s: model %s, transcription size %d' % (what, m, final), c)
+                return
+        if oc == 'returned' and (refused or out['size'] != final):
+            res.fail('oracle' if out['size'] > Q else 'mismatch', 'oversized-value-returned' if out['size'] > Q else 'model-fdict',
+                     '%s returned a dict of %d bytes; expected %s' % (what, out['size'], 'a refusal' if refused else '%d bytes' % final), c)
+        elif oc == 'Quota' and not refused:
+            res.fail('mismatch', 'model-fdict', '%s was refused; the dict never exceeds %d bytes' % (what, final), c)
+        elif oc not in ('returned', 'Quota'):
+            res.fail('oracle', 'quota-other-error', '%s ended in %s' % (what, oc), c)
         return
     if c['sub'] == 'rep' and env['driver'] is not None:
         m = env['driver'].ask({'p': 'C08', 'cases': [{'op': 'repeat', 'kind': c['kind'], 'n': c['n'], 'maxcp': c['maxcp'],
@@ -831,7 +903,8 @@ def run(env, res):
     sizes = (env.get('gen') or {}).get('Sizes') or {}
     if not sizes:
         from gens import sizes as gsizes
-        sizes = gsizes.measure()
+        sizes = gsizes.measure(strict=False)       # the translator refused the tree: still look for a failing input
+    env['sizes'] = sizes
     res.rule = ('S: every registered function x every parameter position that admits a lazy sequence (or a list holding one) x '
                 'N in {0,1,2,5,50} x element kind {ints, empty lists, empty iterators} x lambda profile; non-trivial = the source was '
                 'pulled at least once. E: expressions over src(). R: result shapes with a collection of N-1/N/N+1 elements at depth '
@@ -861,25 +934,31 @@ def run(env, res):
     elems = ('int', 'etuple', 'eiter') if tier == 'quick' else ('int', 'etuple', 'eiter', 'esrc')
     for t in targets:
         lams = ['true', 'false', 'ident'] if t['lambdas'] else ['none']
+        # optional switches (parameters defaulting to False: decycle, depthFirst...): off, each one on, all on
+        sw = [s_ for s_ in t['switches'] if s_ != t['target']]
+        flagsets = [[]] + [[x] for x in sw] + ([sw] if len(sw) > 1 else [])
         if t['target'] is None:
             for N in NS_:
-                cases.append(dict(op='sweep', part='S', fn=t['fn'], payload=t['payload'], target=None, N=N, elem='int',
-                                  wrap='direct', lam='src'))
+                for fl in flagsets:
+                    for lam in ['src'] + ['src:' + x for x in t['lambda_names']]:
+                        cases.append(dict(op='sweep', part='S', fn=t['fn'], payload=t['payload'], target=None, N=N, elem='int',
+                                          wrap='direct', lam=lam, flags=fl))
             continue
         for N in NS_:
             for elem in elems:
                 for wrap in (['direct'] if t['direct'] else []) + (['in_list'] if t['wrapped'] else []):
                     for lam in lams:
-                        cases.append(dict(op='sweep', part='S', fn=t['fn'], payload=t['payload'], target=t['target'], N=N,
-                                          elem=elem, wrap=wrap, lam=lam))
+                        for fl in flagsets:
+                            cases.append(dict(op='sweep', part='S', fn=t['fn'], payload=t['payload'], target=t['target'], N=N,
+                                              elem=elem, wrap=wrap, lam=lam, flags=fl))
     if tier == 'quick':
         # all function x position x N x element kind x wrap combinations stay; lambda profiles are sampled (one of three
         # per combination, the other two with probability 1/3)
         keep = []
         seen = {}
         for c in cases:
-            k = (c['fn'], c['target'], c['N'], c['elem'], c['wrap'])
-            if c['lam'] in ('none', 'src'):
+            k = (c['fn'], c['target'], c['N'], c['elem'], c['wrap'], tuple(c.get('flags') or ()))
+            if c['lam'] == 'none' or c['lam'].startswith('src'):
                 keep.append(c)
                 continue
             first = seen.setdefault(k, rng.choice(['true', 'false', 'ident']))
@@ -907,7 +986,7 @@ def run(env, res):
             if out['outcome'] == 'skipped':
                 qhist['Q:skipped'] = qhist.get('Q:skipped', 0) + 1
                 continue
-            res.case('Q' + common.digest([c['expr'], c['data'], c['Q']]), out['outcome'] in ('returned', 'Quota'),
+            res.case('Q' + common.digest([c['expr'], c['data'], c['Q'], c.get('bigbits')]), out['outcome'] in ('returned', 'Quota'),
                      sample=dict(expr=c['expr'], Q=c['Q'], outcome=out['outcome']) if res.evaluations % 700 == 0 else None)
             judge_quota(env, res, c, out, qhist)
             continue
@@ -949,15 +1028,15 @@ LEVEL_TEXT = ('Lean 4 theorems over a model of utils.limit_iterable (counting ge
               'CPython (repeat_estimate_safe, repeat_estimate_safe_str; the pre-fix estimate shown unsafe by a witness), '
               'memorize_bounded, and quota_flow for first-order call trees. Generated-table theorems re-proved on every run '
               '(C08Gen): every registered parameter that admits a lazy sequence and is iterated is of a limiting type and no '
-              'payload iterates the elements of a parameter unlimited - except the three rows of known finding '
-              'nested-iterators-unlimited (consumers_limited_partial; full statement kept as a def), every consumed producer '
-              'result is limited (producers_limited). Tie and oracle: endless instrumented sources into every registered '
+              'payload iterates the elements of a parameter unlimited (consumers_limited, full - every row of the live '
+              'registry), and no payload iterates the result of a lambda it calls except through limit_iterable '
+              '(producers_limited). Tie and oracle: endless instrumented sources into every registered '
               'function and position in watchdogged, address-space-limited worker processes; result shapes around the limit; '
               'quota boundaries and 10**10 repetitions against the model.')
 LEVEL_NOTE = ('trusted: Lean kernel; hand-written models Yaql/Model/Limits.lean and Convert.lean; the translator '
               '(harness/gens/limitfacts.py, sizes.py); sys.getsizeof. quota_flow is about an abstract first-order evaluator, not '
-              'the yaql evaluator. Known finding nested-iterators-unlimited (list(), set(), flatten() iterate nested lazy '
-              'sequences without the limiter; non-termination reproduced on every run) is reported as KNOWN-FINDING.')
+              'the yaql evaluator. The two defects this check found (nested-iterators-unlimited, frozendict-unmeasured) are '
+              'repaired in /repo (fb14b78, ccc0ee2); reverting either gives a VIOLATION with a concrete failing input.')
 TECHNIQUE = ('Lean 4 proof (invariant of the counting generator, structural induction over values, integer arithmetic) + '
              'generated registry/use-fact table proved by decide +kernel + dynamic sweep of the whole registry')
 DESIGN_REF = 'DESIGN.md section 5, C08'
